@@ -27,6 +27,26 @@ def gen_lines(ctx):
         for _ in range(40 if thorough else 12):
             val = bytes(rng.randrange(256) if rng.random() < 0.5 else rng.choice([0, 2, 8, 16, 26]) for _ in range(n))
             L.append("rw %s %d" % (val.hex() or "-", rng.choice(EDGE_CODES + [rng.randrange(256)])))
+    # whole option lists: No-Response first / in the middle / last / absent, among options numbered below and above 258
+    LOW, HIGH = [1, 4, 11, 12, 15, 17, 23, 27, 60], [259, 292, 2049, 2053, 65000, 65535]
+    for _ in range(1500 if thorough else 300):
+        ids = sorted(rng.sample(LOW, rng.randrange(0, 4)) + rng.sample(HIGH, rng.randrange(0, 4)) + ([258] if rng.random() < 0.85 else []))
+        if not ids:
+            ids = [258]
+        ents = []
+        for i in ids:
+            if i == 258:
+                val = bytes([rng.choice([0, 2, 8, 16, 24, 26, 10, 18, rng.randrange(256)])]) if rng.random() < 0.9 else b""
+            else:
+                val = bytes(rng.randrange(256) for _ in range(rng.randrange(0, 4)))
+            ents.append("%d:%s" % (i, val.hex() or "-"))
+        L.append("rwl %d %s" % (rng.choice(EDGE_CODES + [rng.randrange(256)]), ",".join(ents)))
+    for c in ([69, 132, 160, 65, 128, 165] if not thorough else EDGE_CODES):
+        for v in ("2", "8", "16", "26", "10"):
+            for x in ("x2049", "x292,65000", "x11,2053"):
+                L.append("srv udp con %s %d %s" % (v, c, x))
+                L.append("srv udp non %s %d %s" % (v, c, x))
+                L.append("srv tcp non %s %d %s" % (v, c, x))
     codes = list(range(256)) if thorough else sorted(set(EDGE_CODES + [rng.randrange(256) for _ in range(8)]))
     vals = ["-"] + [str(v) for v in range(32)] + ([str(v) for v in range(32, 256)] if thorough else
                                                    [str(rng.randrange(32, 256)) for _ in range(4)])
@@ -85,7 +105,7 @@ def explore(ctx, art):
                         "refused-iff-class-suppressed", "C20:" + l, "%s: implementation %s, RFC 7967 says %s" % (l, o, j),
                         {"input": [l], "observed": o, "expected": j}))
             elif j != "ok":
-                clause = "refused-iff-class-suppressed" if f[0] == "rw" else "wire-outcome"
+                clause = "refused-iff-class-suppressed" if f[0] in ("rw", "rwl") else "wire-outcome"
                 ctx.violations.append(common.Violation(clause, "C20:" + l, "%s: observed `%s`: %s" % (l, o, j),
                                                        {"input": [l], "observed": o, "judge": j}))
         if f[0] == "digest":
